@@ -23,6 +23,7 @@ import UPVerif.Drv.C23
 import UPVerif.Drv.C22
 import UPVerif.Drv.C30
 import UPVerif.Drv.C10
+import UPVerif.Drv.C10Ext
 import UPVerif.Drv.C28
 import UPVerif.Drv.C20
 import UPVerif.Drv.C15
@@ -59,7 +60,7 @@ def handlers : List (String × (Sexp → Sexp)) := [
   ("C15", Drv.C15.handle),
   ("C20", Drv.C20.handle),
   ("C28", Drv.C28.handle),
-  ("C10", Drv.C10.handle),
+  ("C10", Drv.C10Ext.handle),
   ("C30", Drv.C30.handle),
   ("C22", Drv.C22.handle),
   ("C23", Drv.C23.handle),
